@@ -719,11 +719,15 @@ where
                             member.incarnation() == incarnation
                         })
                     {
+                        let declared_down = summary.apply_successful;
                         self.handle_apply_summary(summary, as_down, true, &mut runtime)?;
                         // Member went down we might need to adjust our internal state
                         self.adjust_connection_state(&mut runtime);
 
-                        if self.config.notify_down_members {
+                        // Only when we actually declared the member down: a refuted
+                        // suspicion, a superseded identity or a member that's down
+                        // already must not be told (again) that it's down
+                        if declared_down && self.config.notify_down_members {
                             // As a courtesy, we send a lightweight message to the member
                             // we're declaring down so that if it manages to receive it,
                             // it can react accordingly
